@@ -109,33 +109,34 @@ Section Generic.
              ++ destruct (IH rest eq_refl kv Hin) as (g & G & X). exists g. split; [right; exact G|exact X].
   Qed.
 
-  Lemma enc_fields_length : forall ts kvs, enc_fields_gen value ts a = Some kvs -> (length kvs <= length ts)%nat.
-  Proof.
-    induction ts as [|f r IH]; intros kvs Henc.
-    - cbn in Henc. injection Henc as <-. cbn. lia.
-    - cbn [enc_fields_gen] in Henc. destruct (f_skip f).
-      + specialize (IH kvs Henc). cbn. lia.
-      + destruct (value f a) as [[v|]|]; [| |discriminate];
-          (destruct (enc_fields_gen value r a) as [rest|]; [|discriminate]); specialize (IH rest eq_refl).
-        * injection Henc as <-. cbn. lia.
-        * destruct (f_omitempty f); injection Henc as <-; cbn; lia.
-  Qed.
-
-  Lemma enc_fields_emits : forall ts kvs f v,
-    enc_fields_gen value ts a = Some kvs -> In f ts -> f_skip f = false -> value f a = Some (Some v) ->
-    In (enc_int (f_key f), v) kvs.
-  Proof.
-    induction ts as [|g r IH]; intros kvs f v Henc Hin Sk V; [destruct Hin|].
-    cbn [enc_fields_gen] in Henc. destruct Hin as [->|Hin].
-    - rewrite Sk, V in Henc. destruct (enc_fields_gen value r a); [|discriminate]. injection Henc as <-. left. reflexivity.
-    - destruct (f_skip g).
-      + eapply IH; eauto.
-      + destruct (value g a) as [[w|]|]; [| |discriminate];
-          (destruct (enc_fields_gen value r a) as [rest|] eqn:R; [|discriminate]).
-        * injection Henc as <-. right. eapply IH; eauto.
-        * destruct (f_omitempty g); injection Henc as <-; [|right]; eapply IH; eauto.
-  Qed.
 End Generic.
+
+Lemma enc_fields_length {A} (value : field_tag -> A -> option (option cbor)) (a : A) : forall ts kvs, enc_fields_gen value ts a = Some kvs -> (length kvs <= length ts)%nat.
+Proof.
+  induction ts as [|f r IH]; intros kvs Henc.
+  - cbn in Henc. injection Henc as <-. cbn. lia.
+  - cbn [enc_fields_gen] in Henc. destruct (f_skip f).
+    + specialize (IH kvs Henc). cbn. lia.
+    + destruct (value f a) as [[v|]|]; [| |discriminate];
+        (destruct (enc_fields_gen value r a) as [rest|]; [|discriminate]); specialize (IH rest eq_refl).
+      * injection Henc as <-. cbn. lia.
+      * destruct (f_omitempty f); injection Henc as <-; cbn; lia.
+Qed.
+
+Lemma enc_fields_emits {A} (value : field_tag -> A -> option (option cbor)) (a : A) : forall ts kvs f v,
+  enc_fields_gen value ts a = Some kvs -> In f ts -> f_skip f = false -> value f a = Some (Some v) ->
+  In (enc_int (f_key f), v) kvs.
+Proof.
+  induction ts as [|g r IH]; intros kvs f v Henc Hin Sk V; [destruct Hin|].
+  cbn [enc_fields_gen] in Henc. destruct Hin as [->|Hin].
+  - rewrite Sk, V in Henc. destruct (enc_fields_gen value r a); [|discriminate]. injection Henc as <-. left. reflexivity.
+  - destruct (f_skip g).
+    + eapply IH; eauto.
+    + destruct (value g a) as [[w|]|]; [| |discriminate];
+        (destruct (enc_fields_gen value r a) as [rest|] eqn:R; [|discriminate]).
+      * injection Henc as <-. right. eapply IH; eauto.
+      * destruct (f_omitempty g); injection Henc as <-; [|right]; eapply IH; eauto.
+Qed.
 
 (** decoding pairs none of whose keys names a field of the table changes nothing *)
 Lemma dec_pairs_foreign {A} (tags : list field_tag) (setf : field_tag -> cbor -> A -> option A) :
